@@ -528,6 +528,15 @@ _FN_HDR = re.compile(r'^fn (.*)$')
 _SIMPLE_CONST = re.compile(r'^const ([\w:<>, ]+): [^=]+ = const (.+);$')
 
 
+def _add_const(consts, key, value):
+    """constant items are looked up by their last path segment: two different items of the same name (associated consts
+    of several impls, consts local to different functions) make the name ambiguous - it then resolves to nothing"""
+    if key in consts and consts[key] != value:
+        consts[key] = '<ambiguous>'
+    else:
+        consts[key] = value
+
+
 class FnList(list):
     """the functions of a dump plus its literal constant items {last path segment: literal text}"""
     def __init__(self, *a):
@@ -547,7 +556,7 @@ def parse_mir(text):
         mc = _SIMPLE_CONST.match(ln)
         if mc:
             # `const NAME: usize = const 32_usize;` (a literal constant item, e.g. a `const` inside a function)
-            funcs.consts[mc.group(1).split('::')[-1]] = mc.group(2).strip()
+            _add_const(funcs.consts, mc.group(1).split('::')[-1], mc.group(2).strip())
         mb = re.match(r'^const ([\w:<>, ]+): [^=]+ = \{$', ln)
         if mb:
             # `const NAME: T = { ... _0 = callee(const lit, ..) ... }`: a constant item initialised by ONE call with
@@ -563,7 +572,10 @@ def parse_mir(text):
                 mcall = re.match(r'^_0 = (.*?)\((.*)\) -> ', calls[0])
                 argl = [a.strip() for a in mcall.group(2).split(',') if a.strip()]
                 if all(a.startswith('const ') for a in argl):
-                    funcs.consts[mb.group(1).split('::')[-1]] = ('call', mcall.group(1), [a[6:] for a in argl])
+                    _add_const(funcs.consts, mb.group(1).split('::')[-1], ('call', mcall.group(1), [a[6:] for a in argl]))
+            else:
+                # initialised by something else (e.g. a const-generic parameter): the name must not resolve to another item
+                _add_const(funcs.consts, mb.group(1).split('::')[-1], '<not a literal>')
         if ln.startswith('fn ') and ln.rstrip().endswith('{'):
             start = i
             j = i + 1
